@@ -842,6 +842,14 @@ def weave(txt, s, notes, canary=False):
         else:
             raise ExtractError('unknown directive @%s' % name)
 
+    # R24: a bare block statement right after a loop body is ambiguous for Verus' loop syntax (it looks like a second body):
+    # separate them by an empty statement
+    for (lstart, lopen) in [(l[0], l[1]) for l in _loops(mask, body_open, body_close)]:
+        lclose = match_close(mask, lopen)
+        nx = _next_sig(mask, lclose + 1)
+        if nx < len(mask) and mask[nx] == '{':
+            inserts.append((lclose + 1, ';'))
+            notes.add('R24', 'empty statement inserted between a loop body and a following bare block')
     if canary:
         if '    ensures' in sig_lines:
             i = sig_lines.index('    ensures')
